@@ -64,7 +64,7 @@ fn canon4(m: &[u64; 4]) -> [u64; 4] {
 /// The limb-level harness family shared by the two pure-Rust Montgomery fields.
 macro_rules! pure_field_harnesses {
     ($F:ty, $mk:ident, $lm:ident, $M:expr,
-     $ct_eq:ident, $csel:ident, $is_zero:ident, $add:ident, $sub:ident, $neg:ident, $double:ident, $cancel:ident) => {
+     $ct_eq:ident, $csel:ident, $is_zero:ident, $add:ident, $sub:ident, $neg:ident, $double:ident, $cancel:ident, $cancel2:ident) => {
         /// `ct_eq` / `==` <=> limb equality (all 2^512 limb pairs, canonical or not)
         #[cfg_attr(kani, kani::proof)]
         #[cfg_attr(kani, kani::unwind(34))]
@@ -107,7 +107,6 @@ macro_rules! pure_field_harnesses {
             let r = $lm(&($mk(a) + $mk(b)));
             assert!(r == addmod(&a, &b, &$M));
             assert!(lt_le_limbs(&r, &$M));
-            vcover!(addn(&a, &b).1); // the 2^256 carry is exercised (only possible when 2m > 2^256)
             vcover!(!lt_le_limbs(&addn(&a, &b).0, &$M));
             vcover!(lt_le_limbs(&addn(&a, &b).0, &$M) && !addn(&a, &b).1);
         }
@@ -145,24 +144,33 @@ macro_rules! pure_field_harnesses {
             vcover!(addn(&a, &a).1 || !lt_le_limbs(&addn(&a, &a).0, &$M));
             vcover!(lt_le_limbs(&addn(&a, &a).0, &$M));
         }
-        /// (a - b) + b == a, (a + b) - b == a, -(-a) == a, a + (-a) == 0
+        /// -(-a) == a, a + (-a) == 0
         #[cfg_attr(kani, kani::proof)]
         #[cfg_attr(kani, kani::unwind(34))]
         pub fn $cancel() {
+            let a = canon4(&$M);
+            let x = $mk(a);
+            assert!($lm(&(-(-x))) == a);
+            assert!($lm(&(x + (-x))) == [0u64; 4]);
+            vcover!(is_zero_n(&a));
+            vcover!(!is_zero_n(&a));
+        }
+        /// (a - b) + b == a, (a + b) - b == a  (thorough: two chained carry chains are slow for the SAT solver)
+        #[cfg_attr(kani, kani::proof)]
+        #[cfg_attr(kani, kani::unwind(34))]
+        pub fn $cancel2() {
             let (a, b) = (canon4(&$M), canon4(&$M));
             let (x, y) = ($mk(a), $mk(b));
             assert!($lm(&((x - y) + y)) == a);
             assert!($lm(&((x + y) - y)) == a);
-            assert!($lm(&(-(-x))) == a);
-            assert!($lm(&(x + (-x))) == [0u64; 4]);
             vcover!(lt_le_limbs(&a, &b));
             vcover!(lt_le_limbs(&b, &a));
         }
     };
 }
 
-pure_field_harnesses!(JFr, jfr, jfr_l, JFR_M, jfr_ct_eq, jfr_cond_select, jfr_is_zero, jfr_add, jfr_sub, jfr_neg, jfr_double, jfr_cancel);
-pure_field_harnesses!(CFp, cfp, cfp_l, P25519, cfp_ct_eq, cfp_cond_select, cfp_is_zero, cfp_add, cfp_sub, cfp_neg, cfp_double, cfp_cancel);
+pure_field_harnesses!(JFr, jfr, jfr_l, JFR_M, jfr_ct_eq, jfr_cond_select, jfr_is_zero, jfr_add, jfr_sub, jfr_neg, jfr_double, jfr_cancel, jfr_cancel2);
+pure_field_harnesses!(CFp, cfp, cfp_l, P25519, cfp_ct_eq, cfp_cond_select, cfp_is_zero, cfp_add, cfp_sub, cfp_neg, cfp_double, cfp_cancel, cfp_cancel2);
 
 // --------------------------------------------------------------------------- Jubjub Fr decoders
 
